@@ -1380,7 +1380,7 @@ pub fn gen_cases(topic: &str, seed: u64, n: usize, path: &str) -> Result<(), Str
         };
         let c: J = match topic {
             "lang" => json!({"topic":"lang","oracle":true,"wt":true,"src":src,"docs":docs,
-                             "plan":{"tri":true,"sws":[[]]}}),
+                             "plan":{"tri":true,"sws":[[]],"eng":true}}),
             // C16: recorded find() calls, and documents perturbed in fields the rule does not address
             "find" => {
                 let mut all_docs = vec![];
@@ -1659,7 +1659,7 @@ pub fn gen_cases(topic: &str, seed: u64, n: usize, path: &str) -> Result<(), Str
             }
             // C01: every switch combination
             "opt" => json!({"topic":"opt","oracle":true,"wt":true,"src":src,"docs":docs,
-                            "plan":{"tri":false,"sws":all17}}),
+                            "plan":{"tri":false,"sws":all17,"eng":true}}),
             // C03: accepted rules never panic: all switches, adversarial documents, validate
             "adv" => {
                 let mut tps = vec![];
